@@ -80,6 +80,7 @@ type WorkerOut struct {
 	Rechecked     int64                `json:"determinism_rechecks"`
 	Stats         map[string]int64     `json:"stats"`
 	SimTimeNs     int64                `json:"simtime_ns"`
+	SimTimeS      int64                `json:"simtime_s"`
 	Nontrivial    int64                `json:"nontrivial_runs"`
 	Fingerprints  string               `json:"fingerprints_file"`
 	Violations    []string             `json:"violation_replays"`
@@ -474,7 +475,8 @@ func Main(t *testing.T, engines map[string]*Engine) {
 		}
 		atomic.AddInt64(&progress, 1)
 		out.Runs++
-		out.SimTimeNs += int64(c.SimTime)
+		out.SimTimeS += int64(c.SimTime / time.Second)
+		out.SimTimeNs += int64(c.SimTime % time.Second)
 		out.TapeLenTotal += int64(len(c.Tape.Used))
 		for k, v := range c.Stats {
 			out.Stats[k] += v
